@@ -673,32 +673,78 @@ func checkFresh(t ev.T, test string, c FreshCase) {
 	var smu sync.Mutex
 	type sign struct{ visible, stamp time.Time }
 	var signs []sign
+	var holderDid time.Time // completion of the holder's newest operation on the lock other than a time stamp
 	// the first removal of the holder's lock directory by somebody else is the verdict that counts: whatever the other
 	// contenders obtain afterwards (a free lock ...) is its consequence, not a verdict of their own
 	var removedBy string
 	var removedAt, removerBegan time.Time
 	beganOf := map[string]time.Time{} // per contender: when its current call began
+	type traced struct {
+		start, end int64
+		client, l  string
+	}
+	var trace []traced // what the backend served, for the failure message
+	var fName string
+	var fBegan, fEnd time.Time
+	var t0 time.Time
 	box.Backend.After = func(op *fsx.Op) {
+		if strings.HasPrefix(op.Path, lockDir) {
+			ms := func(ns int64) string {
+				return fmt.Sprintf("%.1f", float64(ns-t0.UnixNano())/1e6)
+			}
+			l := fmt.Sprintf("[%s..%s] %s %s %s", ms(op.Start), ms(op.End), op.Client, op.Kind, strings.TrimPrefix(op.Path, lockDir))
+			if op.ModTime != 0 {
+				l += " mtime=" + ms(op.ModTime)
+			}
+			if op.Err != "" {
+				l += " err"
+			}
+			smu.Lock()
+			trace = append(trace, traced{op.Start, op.End, op.Client, l})
+			smu.Unlock()
+		}
 		if op.Client == "holder" && op.Kind == "chtimes" && op.Err == "" && strings.HasPrefix(op.Path, lockDir) {
 			// a sign of life is as old as the stamp it carries (on a stalling machine the holder may be held up between reading
 			// the clock and setting the stamp, which observers then see as old as it says), and it is there for observers to see
 			// from the completion of the operation only: a call that began between the two may have been served the older stamp
+			// The stamp cannot be excused for being older than the completion of what the holder did just before (the write of
+			// the heart-beat, the creation of the directory): a stamp read before a slow write makes a live holder look older than it is.
 			at := time.Unix(0, op.End)
 			st := at
 			if x := time.Unix(0, op.ModTime); op.ModTime != 0 && x.Before(at) {
 				st = x
 			}
 			smu.Lock()
+			if st.Before(holderDid) {
+				st = holderDid
+			}
 			signs = append(signs, sign{visible: at, stamp: st})
 			smu.Unlock()
+		} else if op.Client == "holder" && strings.HasPrefix(op.Path, lockDir) {
+			smu.Lock()
+			if e := time.Unix(0, op.End); e.After(holderDid) {
+				holderDid = e
+			}
+			smu.Unlock()
 		}
-		if op.Client != "holder" && (op.Kind == "remove" || op.Kind == "removeall") && op.Path == lockDir && op.Err == "" {
+		if op.Client != "holder" && (op.Kind == "remove" || op.Kind == "removeall") && (op.Path == lockDir || strings.HasPrefix(op.Path, lockDir+string(filepath.Separator))) && op.Err == "" {
 			smu.Lock()
 			if removedBy == "" {
 				removedBy, removedAt, removerBegan = op.Client, time.Unix(0, op.End), beganOf[op.Client]
 			}
 			smu.Unlock()
 		}
+	}
+	tracedAround := func() string {
+		smu.Lock()
+		defer smu.Unlock()
+		var tr []string
+		for _, x := range trace {
+			if fName != "" && x.end >= fBegan.Add(-120*time.Millisecond).UnixNano() && x.start <= fEnd.UnixNano() {
+				tr = append(tr, x.l)
+			}
+		}
+		return strings.Join(tr, " | ")
 	}
 	lastSignBefore := func(x time.Time, fallback time.Time) time.Time {
 		smu.Lock()
@@ -715,7 +761,7 @@ func checkFresh(t ev.T, test string, c FreshCase) {
 	holder := filesystem.NewGenericRemoteLockFile(hfs.(*filesystem.VFS), lockID, dir, false)
 	life, endLife := context.WithCancel(context.Background())
 	defer endLife()
-	t0 := time.Now() // before the lock directory exists: every age computed from it over-estimates the true age
+	t0 = time.Now() // before the lock directory exists: every age computed from it over-estimates the true age
 	var herr error
 	switch c.Acquire {
 	case "lock":
@@ -782,23 +828,16 @@ func checkFresh(t ev.T, test string, c FreshCase) {
 				if what != "" {
 					age := time.Since(lastSignBefore(began, t0))
 					smu.Lock()
-					rb, ra := removedBy, removedAt
+					rb := removedBy
 					smu.Unlock()
 					mu.Lock()
-					if rb != "" && rb != name {
-						// somebody else had already removed the holder's lock: this result says nothing about staleness
+					if rb != "" {
+						// the holder's lock has been dismantled (by somebody else, or by this contender in this or an earlier call): the
+						// verdict is that first removal, judged below by its own date; this result is its consequence
 						consequences++
-					} else if rb == name && kind != "isstale" {
-						// the verdict is the removal: it is dated by the removal, not by the return of the call
-						if age = ra.Sub(lastSignBefore(began, t0)); age <= limit {
-							if finding == "" {
-								finding = fmt.Sprintf("%s: %s, removing the lock directory although the holder's newest sign of life (completed before that call began) was at most %v old at that moment (heart-beat files held up for %d ms; two periods = 100ms)", name, what, age.Round(time.Millisecond), c.DelayMs)
-							}
-						} else {
-							late++
-						}
 					} else if age <= limit {
 						if finding == "" {
+							fName, fBegan, fEnd = name, began, time.Now()
 							finding = fmt.Sprintf("%s: %s although the holder's newest sign of life (completed before that call began) was at most %v old when the call returned (heart-beat files held up for %d ms; two periods = 100ms)", name, what, age.Round(time.Millisecond), c.DelayMs)
 						}
 					} else {
@@ -817,7 +856,7 @@ func checkFresh(t ev.T, test string, c FreshCase) {
 	f := finding
 	mu.Unlock()
 	if f != "" {
-		ev.Fail(t, prop, test, c, "%s; the holder is alive and has not begun to release", f)
+		ev.Fail(t, prop, test, c, "%s; the holder is alive and has not begun to release; the call began at %.1f; served to the two (ms since the start of the case): %s", f, float64(fBegan.Sub(t0))/1e6, tracedAround())
 	}
 	if late > 0 {
 		ev.Class("stale verdict on a holder whose signs of life were more than 85 ms apart (machine load; not judged)")
@@ -830,9 +869,12 @@ func checkFresh(t ev.T, test string, c FreshCase) {
 	smu.Lock()
 	rb, ra, rbeg := removedBy, removedAt, removerBegan
 	smu.Unlock()
-	if rb != "" && f == "" && late == 0 {
-		if age := ra.Sub(lastSignBefore(rbeg, t0)); !rbeg.IsZero() && age <= limit {
-			ev.Fail(t, prop, test, c, "%s removed the lock directory although the holder's newest sign of life (completed before that call began) was at most %v old at that moment (two periods = 100ms); the holder is alive and has not begun to release", rb, age.Round(time.Millisecond))
+	if rb != "" && f == "" && !rbeg.IsZero() {
+		if age := ra.Sub(lastSignBefore(rbeg, t0)); age <= limit {
+			fName, fBegan, fEnd = rb, rbeg, ra
+			ev.Fail(t, prop, test, c, "%s removed the lock directory (or what is in it) although the holder's newest sign of life (completed before that call began) was at most %v old at that moment (heart-beat files held up for %d ms; two periods = 100ms); the holder is alive and has not begun to release; the call began at %.1f; served (ms since the start of the case): %s", rb, age.Round(time.Millisecond), c.DelayMs, float64(rbeg.Sub(t0))/1e6, tracedAround())
+		} else {
+			ev.Class("stale verdict on a holder whose signs of life were more than 85 ms apart (machine load; not judged)")
 		}
 	}
 	uctx, ucancel := context.WithTimeout(context.Background(), 3*time.Second)
